@@ -96,10 +96,16 @@ def compare(obs, exps):
 def judge(case):
     prog, clock, faults, sname, driver, raw, end = case
     pieces, exps = plan(prog, faults, sname, driver, end)
+    strat = strategies()[sname]
+    # every other case selects the strategy together with an explicit log
+    # level (the two-argument form of set_error_strategy)
+    if (len(prog) + len(faults) + len(driver)) % 2:
+        import logging
+        strat = (strat, logging.ERROR)
     with common.quiet_stdio():
         try:
             r = progmc.run_pieces(prog, clock, pieces, faults=faults,
-                                  strategy=strategies()[sname], raw=raw,
+                                  strategy=strat, raw=raw,
                                   end=end)
         except common.HarnessError:
             raise
